@@ -41,6 +41,15 @@ Sized(op)   == op \in {"read", "read1", "readline", "readinto", "readinto_mv", "
 IntoOp(op)  == op \in {"readinto", "readinto_mv", "readinto1"}
 LineOp(op)  == op \in {"readline", "next"}
 
+\* Request-level consumers of the body stream (werkzeug.wrappers.Request): each reads the whole
+\* body (an unbounded read of the stream handed to the application), the recorded result is the
+\* body bytes the consumer delivered (raw, or re-encoded from the decoded text / JSON / form value).
+\* req_stream_read = request.stream.read() after such a consumer; req_close = Request.close(),
+\* which delivers nothing and may or may not drain the stream (never beyond the limit).
+ReqAll(op) == op \in {"req_get_data", "req_get_data_nocache", "req_data", "req_get_data_text",
+                      "req_get_json", "req_form", "req_stream_read"}
+ReqClose(op) == op = "req_close"
+
 EndsLF(B) == B # <<>> /\ B[Len(B)] = LF
 OneLine(B) == \A j \in 1..(Len(B) - 1) : B[j] # LF
 
@@ -77,7 +86,7 @@ Complete(c, ln, evs, B, y1) ==
               IF IsRaw(c) THEN nB > 0 \/ stopS ELSE nB = ln.n \/ stopS
        [] ln.op \in {"read1", "readinto1", "peek"} -> nB > 0 \/ stopS
        [] ln.op = "exhaust" -> stopS
-       [] ln.op = "readall" -> stopU
+       [] ln.op = "readall" \/ ReqAll(ln.op) -> stopU
        [] LineOp(ln.op) -> EndsLF(B) \/ (ln.n > 0 /\ nB = ln.n) \/ stopU
        [] ln.op = "readlines" -> (ln.n > 0 /\ nB >= ln.n) \/ stopU
        [] OTHER -> TRUE
@@ -120,11 +129,11 @@ OpVerdict(c, st, ln) ==
   ELSE IF ln.pos # u1 THEN "PosAccounting"
   ELSE IF SawErr(evs) THEN "DisconnectOnError"
   ELSE IF SawShortEOF(c, evs, u0) /\ ~c.is_max THEN "DisconnectOnShort"
-  ELSE IF c.is_max /\ u0 >= c.limit /\ st.synced /\ st.ylo = u0 /\ ln.op # "exhaust" THEN "TooLargeOnMax"
+  ELSE IF c.is_max /\ u0 >= c.limit /\ st.synced /\ st.ylo = u0 /\ ln.op # "exhaust" /\ ~ReqClose(ln.op) THEN "TooLargeOnMax"
   ELSE IF st.synced /\ ~SliceAt(c, st.ylo, B) THEN "PrefixOfData"
   ELSE IF ~st.synced /\ MatchEnd(c.data, st.ylo, B, 1, u1) < 0 THEN "PrefixOfData"
   ELSE IF st.synced /\ st.ylo + nB > u1 THEN "PrefixOfData"
-  ELSE IF st.synced /\ IsRaw(c) /\ st.ylo + nB # u1 THEN "NoLoss"
+  ELSE IF st.synced /\ IsRaw(c) /\ st.ylo + nB # u1 /\ ~ReqClose(ln.op) THEN "NoLoss"
   ELSE IF Sized(ln.op) /\ ln.n > 0 /\ nB > ln.n THEN "SizeBound"
   ELSE IF ~ShapeOK(ln, B) THEN "LineShape"
   ELSE IF st.synced /\ ~Complete(c, ln, evs, B, st.ylo + nB) THEN "Truncated"
@@ -136,7 +145,8 @@ OpNext(c, st, ln) ==
   LET u1  == st.upos + Consumed(ln.ev)
       isB == ln.rk = "bytes" \/ (ln.rk = "stop" /\ ln.op = "next")
       B   == IF ln.rk = "bytes" THEN ln.rb ELSE <<>>
-  IN IF isB /\ ln.op = "peek" THEN [ylo |-> st.ylo, upos |-> u1, synced |-> st.synced]   \* peek delivers without consuming
+  IN IF isB /\ ReqClose(ln.op) THEN [ylo |-> u1, upos |-> u1, synced |-> st.synced]      \* close may drain
+     ELSE IF isB /\ ln.op = "peek" THEN [ylo |-> st.ylo, upos |-> u1, synced |-> st.synced]   \* peek delivers without consuming
      ELSE IF isB THEN
           IF st.synced THEN [ylo |-> st.ylo + Len(B), upos |-> u1, synced |-> TRUE]
           ELSE IF MatchEnd(c.data, st.ylo, B, 1, u1) >= 0
